@@ -164,6 +164,47 @@ def _replay(job):
                         "%s: filtered %s vs selected-only %s" % (
                             {k: case[k] for k in ("inst", "mask", "poison")},
                             str(ra)[:120], str(rb)[:120])))
+    # --- density estimates use only the events that are valid in both
+    # features: compare with a dataset that does not contain the others
+    for xs in ("linear", "log"):
+        xv, yv = x[idx], y[idx]
+        good = np.isfinite(xv) & np.isfinite(yv)
+        if xs == "log":
+            good &= (xv > 0) & (yv > 0)
+        if good.all() or good.sum() < 2:
+            continue
+        V = dclab.new_dataset({"deform": xv[good], "area_um": yv[good]})
+        V.apply_filter()
+        for kt in KDES[:3]:
+            ra = call(lambda: B.get_kde_contour(
+                xax="area_um", yax="deform", kde_type=kt, xscale=xs,
+                yscale=xs, xacc=3.0 if xs == "linear" else 0.2,
+                yacc=0.7 if xs == "linear" else 0.2))
+            rv = call(lambda: V.get_kde_contour(
+                xax="area_um", yax="deform", kde_type=kt, xscale=xs,
+                yscale=xs, xacc=3.0 if xs == "linear" else 0.2,
+                yacc=0.7 if xs == "linear" else 0.2))
+            n += 1
+            if not same(ra, rv, rtol=1e-10):
+                out.append(("selected events with invalid values influence "
+                            "the kde contour (%s scale)" % xs,
+                            "%s %s: %s vs %s" % (
+                                {k: case[k] for k in ("inst", "mask")}, kt,
+                                str(ra)[:100], str(rv)[:100])))
+            sa = call(lambda: B.get_kde_scatter(
+                xax="area_um", yax="deform", kde_type=kt, xscale=xs,
+                yscale=xs))
+            sv = call(lambda: V.get_kde_scatter(
+                xax="area_um", yax="deform", kde_type=kt, xscale=xs,
+                yscale=xs))
+            n += 1
+            if sa[0] == "ok" and sv[0] == "ok":
+                sa = ("ok", (sa[1][0][good],))
+            if not same(sa, sv, rtol=1e-10):
+                out.append(("selected events with invalid values influence "
+                            "the kde scatter (%s scale)" % xs,
+                            "%s %s" % ({k: case[k] for k in ("inst",
+                                                             "mask")}, kt)))
     return dict(case, checks=n + 5), out
 
 
